@@ -12,6 +12,7 @@ import (
 	"strings"
 	"time"
 
+	"go/ast"
 	"go/token"
 
 	"golang.org/x/tools/go/ssa"
@@ -283,6 +284,49 @@ func countInstrs(fn *ssa.Function) int {
 
 // loopSrc returns the source line of a loop's `for` statement (best effort).
 func loopSrc(prog *Program, l *LoopInfo) string {
+	// the innermost for/range statement of the function's syntax containing all of the loop's code
+	if syn := l.header.Parent().Syntax(); syn != nil {
+		var ps []token.Pos
+		for b := range l.blocks {
+			for _, ins := range b.Instrs {
+				switch ins.(type) {
+				case *ssa.Phi, *ssa.DebugRef:
+					continue
+				}
+				if ins.Pos().IsValid() {
+					ps = append(ps, ins.Pos())
+				}
+			}
+		}
+		var best ast.Node
+		ast.Inspect(syn, func(n ast.Node) bool {
+			switch n.(type) {
+			case *ast.ForStmt, *ast.RangeStmt:
+				all := len(ps) > 0
+				for _, p := range ps {
+					if p < n.Pos() || p >= n.End() {
+						all = false
+						break
+					}
+				}
+				if all && (best == nil || (n.Pos() >= best.Pos() && n.End() <= best.End())) {
+					best = n
+				}
+			}
+			return true
+		})
+		if best != nil {
+			return prog.srcAt(best.Pos(), "")
+		}
+	}
+	// prefer an instruction of the loop head that sits on a `for` line
+	for _, ins := range l.header.Instrs {
+		if ins.Pos().IsValid() {
+			if s := prog.srcAt(ins.Pos(), ""); strings.HasPrefix(s, "for ") || s == "for {" {
+				return s
+			}
+		}
+	}
 	pos := token.NoPos
 	for _, ins := range l.header.Instrs {
 		if ins.Pos().IsValid() {
